@@ -244,6 +244,9 @@ func mayBeNilViaPhis(v ssa.Value, seen map[ssa.Value]bool) bool {
 
 func derefsOf(v ssa.Value) []ssa.Instruction {
 	var out []ssa.Instruction
+	if v.Referrers() == nil {
+		return nil // constants / globals have no referrer list
+	}
 	for _, ref := range *v.Referrers() {
 		switch x := ref.(type) {
 		case *ssa.FieldAddr:
